@@ -89,6 +89,45 @@ pub fn refused_case(ctx: &mut Ctx, fl: Flavour, compressed: bool, which: usize, 
     }
 }
 
+/// the read half has reported the end of the stream (the peer half-closed); the write half still takes everything:
+/// packets written afterwards reach the transport as their frames
+pub fn write_after_eof_case(ctx: &mut Ctx, fl: Flavour, compressed: bool, accept: usize) {
+    ctx.oracle_eval("write-after-end-of-stream");
+    let op = format!("c06.aftereof {} {} {}", fl.tok(), mode_tok(compressed), accept);
+    let sb = size_byte(compressed, 4);
+    let ws: Vec<WEv> = if accept == 0 { vec![] } else { vec![WEv::Accept(accept); 64] };
+    let script = Script::new(vec![Ev::Data(vec![sb, 3, 9, 3]), Ev::Eof], ws);
+    let tr = Transport(script.clone());
+    let tiny = |r: u8| -> Packet { insim::insim::Tiny { reqi: insim::identifiers::RequestId(r), subt: insim::insim::TinyType::Ping }.into() };
+    let want: Vec<u8> = [[sb, 3, 1, 3], [sb, 3, 2, 3], [sb, 3, 3, 3]].concat();
+    let res: Option<Vec<String>> = match fl {
+        Flavour::Blocking => guard(std::panic::AssertUnwindSafe(|| {
+            let mut f = insim::net::blocking_impl::Framed::new(Box::new(tr.clone()), Codec::new(mode_of(compressed)));
+            let mut out = vec![format!("w{}", f.write(tiny(1)).is_ok() as u8)];
+            for _ in 0..3 { match f.read() { Ok(_) => out.push("pkt".into()), Err(insim::Error::Disconnected) => { out.push("eof".into()); break; }, Err(_) => out.push("err".into()) } }
+            out.push(format!("w{}", f.write(tiny(2)).is_ok() as u8));
+            out.push(format!("w{}", f.write(tiny(3)).is_ok() as u8));
+            out
+        })),
+        Flavour::Tokio => guard(std::panic::AssertUnwindSafe(|| {
+            let rt = tokio::runtime::Builder::new_current_thread().enable_time().build().unwrap();
+            rt.block_on(async {
+                let mut f = insim::net::tokio_impl::Framed::new(Box::new(tr.clone()), Codec::new(mode_of(compressed)));
+                let mut out = vec![format!("w{}", f.write(tiny(1)).await.is_ok() as u8)];
+                for _ in 0..3 { match f.read().await { Ok(_) => out.push("pkt".into()), Err(insim::Error::Disconnected) => { out.push("eof".into()); break; }, Err(_) => out.push("err".into()) } }
+                out.push(format!("w{}", f.write(tiny(2)).await.is_ok() as u8));
+                out.push(format!("w{}", f.write(tiny(3)).await.is_ok() as u8));
+                out
+            })
+        })),
+    };
+    let out = script.lock().unwrap().out.clone();
+    let want_res: Vec<String> = ["w1", "pkt", "eof", "w1", "w1"].iter().map(|s| s.to_string()).collect();
+    if res.as_ref() != Some(&want_res) || out != want {
+        ctx.violation(&format!("c06/after-end-of-stream/{}", fl.tok()), "after the read half reported the end of the stream, a packet written to a healthy write half did not reach the transport as its frame", &op, &format!("{:?} {}", want_res, hex(&want)), &format!("{:?} {}", res, hex(&out)));
+    }
+}
+
 pub fn refused_seq(which: usize) -> Vec<Packet> {
     use insim::insim::*;
     let tiny = |r: u8| -> Packet { Tiny { reqi: insim::identifiers::RequestId(r), subt: TinyType::Ping }.into() };
@@ -105,6 +144,7 @@ pub fn replay_line(ctx: &mut Ctx, l: &str) -> bool {
     let w: Vec<&str> = l.split_whitespace().collect();
     match w.as_slice() {
         ["c06.refused", fl, m, which, accept] => { refused_case(ctx, if *fl == "tokio" { Flavour::Tokio } else { Flavour::Blocking }, *m == "c", which.parse().unwrap_or(0), accept.parse().unwrap_or(0)); true },
+        ["c06.aftereof", fl, m, a] => { write_after_eof_case(ctx, if *fl == "tokio" { Flavour::Tokio } else { Flavour::Blocking }, *m == "c", a.parse().unwrap_or(0)); true },
         ["ws.backpressure", n] => { crate::c20::backpressure_case_p(ctx, "c06", n.parse().unwrap_or(3000)); true },
         ["framed.write", fl, m, frames, ws] | ["framed.write", fl, m, frames, ws, _] => {
             let frames: Vec<Vec<u8>> = if *frames == "-" { vec![] } else { frames.split('+').map(unhex).collect() };
@@ -120,6 +160,8 @@ pub fn replay_line(ctx: &mut Ctx, l: &str) -> bool {
 
 pub fn generate(ctx: &mut Ctx) {
     let quick = ctx.quick();
+    // writes after the read half has ended
+    for compressed in [true, false] { for fl in [Flavour::Blocking, Flavour::Tokio] { for accept in [0usize, 1, 3] { write_after_eof_case(ctx, fl, compressed, accept); } } }
     // a slow peer: one byte accepted every two (virtual) seconds, for frames of 4 to 68 bytes — no single wait is long, the
     // frame as a whole takes minutes; it still arrives whole, and so does the next one
     for compressed in [true, false] {
